@@ -1,6 +1,6 @@
 (* C10 — PT-TEBD chain dynamics are exact where checkable, in every execution mode. *)
 From Coq Require Import Arith List Bool Permutation Lia.
-From OQ Require Import Model.Chain Proofs.ChainSpec Proofs.ChainTime.
+From OQ Require Import Model.Chain Proofs.ChainSpec Proofs.ChainTime Proofs.ChainTwoSite.
 Import ListNotations.
 
 (* (1) the Trotter layers, for every chain length: order 1 is (even, odd), order 2 is
@@ -63,6 +63,19 @@ Example uncoupled_example :
   (forall i a b s, U i (a + b) s = U i b (U i a s)) /\ (forall i s, U i 0 s = s) /\
   fst (prod_step nat unit 0 tt 4 U 2 ([5; 0; 7; 1], [tt; tt; tt; tt; tt])) = [13; 16; 31; 33].
 Proof. cbv zeta. split; [intros; lia|]. split; [intros; lia|]. reflexivity. Qed.
+
+(* (2d) a chain of two sites has no Trotter error.  It has one bond; with J t the evolution of the pair
+   (Gamma_0, lambda_1, Gamma_1) for t quarter-steps between its fixed outer bonds and the semigroup law of J (expm's
+   contract, a premise), one TEBD step is exactly J (one time step), for both Trotter orders (order 2 applies the
+   gate twice for half the step) and every state *)
+Theorem two_site_exact :
+  forall (A B : Type) (da : A) (db : B) (J : nat -> B -> A * B * A -> B -> A * B * A),
+    (forall a b l0 x l2, J (a + b) l0 x l2 = J b l0 (J a l0 x l2) l2) ->
+    forall order g0 g1 l0 l1 l2, order = 1 \/ order = 2 ->
+      pair_step A B da db J order ([g0; g1], [l0; l1; l2]) =
+      let '(g0', l1', g1') := J 4 l0 (g0, l1, g1) l2 in ([g0'; g1'], [l0; l1'; l2]).
+Proof. exact ChainTwoSite.two_site_exact. Qed.
+Print Assumptions two_site_exact.
 
 (* (3) execution modes.  A gate on (l, l+1) reads lambda_l, Gamma_l, lambda_{l+1}, Gamma_{l+1},
    lambda_{l+2} and writes Gamma_l, lambda_{l+1}, Gamma_{l+1}; for ANY gate function, chain state and
